@@ -5,8 +5,103 @@ use std::net::TcpStream;
 use std::time::Duration;
 use vreplay::*;
 
+/// A client that stalls while large frames are emitted, then reads everything: the stream must be a concatenation of whole
+/// length-delimited frames (independent varint decoder), and with a buffer limit far above the number of frames none may be missing.
+fn drive_scenario(plan: &Plan) -> ! {
+    const N: usize = 48;
+    const VAL: usize = 300_000;
+    let port = { let l = std::net::TcpListener::bind("127.0.0.1:0").unwrap(); l.local_addr().unwrap().port() };
+    let addr: std::net::SocketAddr = format!("127.0.0.1:{}", port).parse().unwrap();
+    let rec = metrics_exporter_tcp::TcpBuilder::new().listen_address(addr).buffer_size(Some(4096)).build().expect("build");
+    std::thread::sleep(Duration::from_millis(300));
+    let mut c = TcpStream::connect_timeout(&addr, Duration::from_secs(2)).expect("connect");
+    std::thread::sleep(Duration::from_millis(300));
+    metrics::with_local_recorder(&rec, || {
+        for i in 0..N {
+            let letter = (b'A' + (i % 26) as u8) as char;
+            let v: String = std::iter::repeat(letter).take(VAL).collect();
+            metrics::gauge!("g", "seq" => format!("{}", i), "v" => v).set(i as f64);
+            std::thread::sleep(Duration::from_millis(25));      // one wake-up of the transport thread per frame
+        }
+    });
+    std::thread::sleep(Duration::from_millis(300));
+    // now read until the stream is idle, then emit a few more frames to a client that is reading, and read again
+    c.set_read_timeout(Some(Duration::from_millis(1500))).unwrap();
+    let mut raw: Vec<u8> = Vec::new();
+    let mut buf = vec![0u8; 1 << 16];
+    for phase in 0..2 {
+        loop {
+            match c.read(&mut buf) {
+                Ok(0) => break,
+                Ok(k) => raw.extend_from_slice(&buf[..k]),
+                Err(_) => break,
+            }
+        }
+        if phase == 0 {
+            metrics::with_local_recorder(&rec, || {
+                for i in 0..4 {
+                    let v: String = std::iter::repeat('Z').take(VAL).collect();
+                    metrics::gauge!("g", "seq" => format!("{}", 1000 + i), "v" => v).set(0.0);
+                    std::thread::sleep(Duration::from_millis(25));
+                }
+            });
+        }
+    }
+    // independent decoder: varint length, then that many bytes
+    let mut pos = 0usize;
+    let mut whole = 0usize;
+    let mut torn = false;
+    let mut seen = vec![false; N];
+    while pos < raw.len() {
+        let mut len = 0usize;
+        let mut shift = 0;
+        loop {
+            if pos >= raw.len() { break; }
+            let b = raw[pos];
+            pos += 1;
+            len |= ((b & 0x7f) as usize) << shift;
+            shift += 7;
+            if b & 0x80 == 0 { break; }
+            if shift > 35 { torn = true; break; }
+        }
+        if torn { break; }
+        if pos + len > raw.len() { println!("last frame cut off by the end of the capture ({} of {} bytes)", raw.len() - pos, len); break; }
+        let payload = &raw[pos..pos + len];
+        pos += len;
+        // a whole frame holds exactly one run of VAL identical capital letters
+        let mut runs = vec![];
+        let mut i = 0;
+        while i < payload.len() {
+            let ch = payload[i];
+            let mut j = i;
+            while j < payload.len() && payload[j] == ch { j += 1; }
+            if ch.is_ascii_uppercase() && j - i >= 1000 { runs.push((ch, j - i)); }
+            i = j;
+        }
+        if runs.len() == 1 && runs[0].1 >= VAL && runs[0].1 <= VAL + 2 && len < VAL + 200 {
+            whole += 1;
+            // the sequence number is the other label: find "seq" and the digits after it
+            if let Some(p) = payload.windows(3).position(|w| w == b"seq") {
+                let digits: String = payload[p + 3..].iter().skip_while(|b| !b.is_ascii_digit()).take_while(|b| b.is_ascii_digit()).map(|b| *b as char).collect();
+                if let Ok(k) = digits.parse::<usize>() { if k < N { seen[k] = true; } }
+            }
+        } else if len > 1000 {
+            println!("frame of {} bytes is not one whole message: letter runs {:?}", len, runs);
+            torn = true;
+            break;
+        }
+    }
+    let missing: Vec<usize> = (0..N).filter(|k| !seen[*k]).collect();
+    println!("captured {} bytes, {} whole frames, torn={}, missing seq {:?}", raw.len(), whole, torn, missing);
+    let mut v = vec![];
+    if torn { v.push("no_torn_frame"); v.push("no_frame_lost_by_a_failed_write"); }
+    if !torn && !missing.is_empty() { v.push("no_frame_lost_by_a_failed_write"); }
+    finish(&v, plan)
+}
+
 fn main() {
     let plan = load_plan(&std::env::args().nth(1).expect("plan"));
+    if plan.scenario == "c11_drive" { drive_scenario(&plan); }
     let has = plan.inputs.get("has").copied().unwrap_or(0) != 0;
     let n = plan.inputs.get("n").copied().unwrap_or(0) as usize;
     // pick a free port
